@@ -328,7 +328,7 @@ INT_GOOD = {
     "delay": [0, 1, 2**31],
 }
 NON_INT = [1.5, "1", b"1", None, "1 noreply", "0\r\nflush_all", "0 0 0\r\nflush_all\r\nset k 0", True, [1]]
-CAS_BAD = ["", "1 2", "1\r\nflush_all", b"1 noreply", "١", -1, 1.5, None, b"", "+1"]
+CAS_BAD = ["", "1 2", "1\r\nflush_all", b"1 noreply", "١", "١٢٣", "²", "１２３", -1, 1.5, None, b"", "+1"]
 
 
 def dim_keys(chk, tier, stack, prefix, uni, as_str):
@@ -386,8 +386,9 @@ def dim_ints(chk, tier, stack):
             for kind, v in menu:
                 for nr in (True, False):
                     for val in (b"v", b"flush_all"):
-                        c = Call(op, keys, value=val, noreply=nr, **{name: v})
-                        judge(chk, "int", c, stack, b"", False, "ascii", f"{name}:{kind}:{type(v).__name__}")
+                        for enc in ("ascii", "utf8"):
+                            c = Call(op, keys, value=val, noreply=nr, **{name: v})
+                            judge(chk, "int", c, stack, b"", False, enc, f"{name}:{kind}:{type(v).__name__}:{enc}")
 
 
 def dim_multi(chk, tier, stack):
